@@ -56,8 +56,12 @@ def draw_params(rnd, cfg):
             wn[rnd.randrange(n)] = -rnd.uniform(20, 1500)          # imaginary frequency
         if k < 0.1:
             wn.append(0.0)
-        sub = rnd.choice([None, None, 50.0, 100.0])
-        p['vib'] = {'wn': wn, 'sub': sub}
+        sub = rnd.choice([None, None, 50.0, 100.0, 75.5])
+        int_wn = rnd.random() < 0.3                  # integer-typed input (list of ints / int ndarray)
+        if int_wn:
+            wn = [int(round(w)) for w in wn]
+            sub = rnd.choice([None, 75.5, 62.25])
+        p['vib'] = {'wn': wn, 'sub': sub, 'int_wn': int_wn}
         if v == 'QRRHO':
             p['vib'].update({'Bav': rnd.choice([1e-44, 5e-45, 3e-44]), 'v0': rnd.choice([100.0, 50.0, 150.0])})
     elif v in ('Einstein', 'Debye'):
@@ -81,6 +85,7 @@ def build_modes(cfg, p):
         if cfg['trans'] == 'FreeTrans' else EmptyMode()
     v = cfg['vib']
     if v == 'Harmonic':
+        # ints stay ints (a list of Python ints), floats stay floats
         m['vib'] = vib.HarmonicVib(vib_wavenumbers=list(p['vib']['wn']), imaginary_substitute=p['vib']['sub'])
     elif v == 'QRRHO':
         import numpy as np
@@ -290,10 +295,22 @@ def exec_cache(case):
     from pmutt.statmech import vib
     kind = case['vibkind']
 
+    as_int = case.get('int_wn', False)          # integer-typed wavenumber input
+    frac = 0.5 if case.get('fracsub', False) else 0.0   # the model's substitute 50 stands for 50.5
+
+    def num(w):
+        return int(w) if as_int else float(w)
+
     def mk(wn, sub):
         if kind == 'harmonic':
-            return vib.HarmonicVib(vib_wavenumbers=[float(w) for w in wn], imaginary_substitute=sub)
-        return vib.QRRHOVib(vib_wavenumbers=np.array([float(w) for w in wn]), imaginary_substitute=sub)
+            return vib.HarmonicVib(vib_wavenumbers=[num(w) for w in wn], imaginary_substitute=sub)
+        return vib.QRRHOVib(vib_wavenumbers=np.array([num(w) for w in wn]), imaginary_substitute=sub)
+
+    def mk_fresh(valid, subint):
+        vals = [float(v) + (frac if (subint and v == subint) else 0.0) for v in valid]
+        if kind == 'harmonic':
+            return vib.HarmonicVib(vib_wavenumbers=vals, imaginary_substitute=None)
+        return vib.QRRHOVib(vib_wavenumbers=np.array(vals), imaginary_substitute=None)
 
     def obs(o):
         out = [float(o.get_ZPE())]
@@ -303,15 +320,19 @@ def exec_cache(case):
 
     events, mism = [], []
     obj = None
+    sub_at_refresh = 0
     for k, st in enumerate(case['steps']):
-        sub = float(st['sub']) if st['sub'] else None
+        sub = (float(st['sub']) + frac) if st['sub'] else None
         if st['act'] == 'construct':
             obj = mk(st['wn'], sub)
         elif st['act'] == 'set_wn':
-            obj.vib_wavenumbers = np.array([float(w) for w in st['wn']])
+            obj.vib_wavenumbers = np.array([num(w) for w in st['wn']])
         elif st['act'] == 'set_sub':
             obj.imaginary_substitute = sub
-        fresh = mk(st['valid'], None)
+        # which substitute value the cached list was built with: the one in force at the last refresh
+        if st['act'] in ('construct', 'set_wn'):
+            sub_at_refresh = st['sub']
+        fresh = mk_fresh(st['valid'], sub_at_refresh)
         a, b = obs(obj), obs(fresh)
         if a != b:
             mism.append({'step': k, 'op': st, 'got': a, 'expected': b})
@@ -414,6 +435,7 @@ def run(ctx):
                               'npoints': ctx.pick(2, 4), 'cseed': rnd.randrange(1 << 30)})
         for i, h in enumerate(behs):
             cases.append({'kind': 'cache', 'vibkind': 'harmonic' if i % 2 == 0 else 'qrrho',
+                          'int_wn': (i // 2) % 2 == 1, 'fracsub': (i // 4) % 2 == 1,
                           'steps': [{'act': s['act'], 'wn': s['wn'], 'sub': s['sub'], 'valid': s['valid'],
                                      'stale': s['stale']} for s in h]})
         from ase.collections import g2
